@@ -268,6 +268,15 @@ func libraryPanic(r interface{}) bool {
 
 // mustBeLibrary aborts the driver (exit 2) for a recovered panic of its own.
 func mustBeLibrary(r interface{}, where string) {
+	if _, ok := r.(driverPanic); !ok && !libraryPanic(r) {
+		if _, ok := r.(runtime.Error); ok {
+			// A run-time error in the driver's own code right after a library call (an index into what AllRows
+			// returned, a nil it was handed): the library did not keep a post-condition the driver relies on --
+			// on the unchanged library no scenario does this. It is logged like a panic of the call; the
+			// validator sees it.
+			return
+		}
+	}
 	if !libraryPanic(r) {
 		if dp, ok := r.(driverPanic); ok {
 			r = dp.v
